@@ -431,7 +431,11 @@ impl<'input> State<'input> {
         // would be inferred. So, for derive Error macro we default enabled
         // to true unconditionally (i.e., even if some fields have attributes
         // specified).
-        let default_enabled = if trait_name == "Error" {
+        //
+        // The same goes for derive Unwrap and TryUnwrap: their variant-level
+        // `owned`/`ref`/`ref_mut` attributes only add accessor forms for that
+        // variant, every variant without `ignore` keeps its accessors.
+        let default_enabled = if matches!(trait_name, "Error" | "Unwrap" | "TryUnwrap") {
             true
         } else {
             first_match.map_or(true, |info| !info.enabled.unwrap())
@@ -445,8 +449,13 @@ impl<'input> State<'input> {
             // - not a single attribute means default true
             // - an attribute, but non of owned, ref or ref_mut means default true
             // - an attribute, and owned, ref or ref_mut means default false
+            //
+            // Except for derive Unwrap and TryUnwrap, where the owned accessor of a
+            // variant never depends on the attributes of another variant.
             owned: first_match.map_or(true, |info| {
-                info.owned.is_none() && info.ref_.is_none() || info.ref_mut.is_none()
+                matches!(trait_name, "Unwrap" | "TryUnwrap")
+                    || info.owned.is_none() && info.ref_.is_none()
+                    || info.ref_mut.is_none()
             }),
             ref_: false,
             ref_mut: false,
